@@ -150,7 +150,7 @@ Theorem C16_jsstr_roundtrip_soy : forall s,
 Proof.
   intros s Hg Hv. apply (jsstr_roundtrip_soy_q jsstr_pair_html is_print_tbl is_print_tbl_ls is_print_tbl_ps 39 (or_introl eq_refl)); [exact Hv|].
   destruct Hg as [Hp|Hg]; [apply Forall_forall; intros; left; exact Hp|].
-  eapply Forall_impl; [|exact Hg]. cbn. tauto.
+  eapply Forall_impl; [|exact Hg]. intros r Hr. right. exact Hr.
 Qed.
 Print Assumptions C16_jsstr_roundtrip_soy.
 
